@@ -43,7 +43,7 @@
 
    Not modelled (kernel semantics; the properties using this file are labelled partial for
    them): permissions/EACCES/EPERM, EXDEV and mount points, setgid-directory gid
-   inheritance, sticky bits, the implicit mtime/ctime update of the PARENT directory when an
+   inheritance, sticky bits, chown clearing set-uid/set-gid bits, the implicit mtime/ctime update of the PARENT directory when an
    entry is created/removed/renamed, nlink counts, open file descriptors surviving unlink,
    page-cache loss and reordering on a real power cut (each completed op is durable).
    ================================================================================ *)
